@@ -50,14 +50,12 @@ static void run_case(const Scene &sc, const vector<Op> &ops) {
             nodes[op.node]->var->desiredPosition = op.target; nodes[op.node]->var->weight = 10000;
             if (op.node2 >= 0) { nodes[op.node2]->var->desiredPosition = op.target2; nodes[op.node2]->var->weight = 10000; }
             bool loop = false, asserted = false;
-            // an internal assertion (several of them ARE the property) must not hide the state it left behind:
-            // catch it here, judge the state with the harness's own oracle, then stop this history
-            try { TopologyConstraints t(dim, nodes, es, nullptr, vs, cs); int lb = 100; bool in; do { in = t.solve(); lb--; } while (in && lb > 0); if (lb == 0) loop = true; }
-            catch (vpsc::CriticalFailure &f) { asserted = true; ctx.library_abort(f.what(), desc); }
-            for (auto c : cs) delete c;
-            ctx.count("transitions"); ctx.count("states");
-            if (loop) ctx.count("loop_breaker_hit");
-            // ---- oracle on the state after the step
+            // The oracle is evaluated after EVERY internal solve() call of the step ("during and after layout"), and the side
+            // invariant between consecutive internal states: within one solve() all nodes move linearly and at most one
+            // bend is created or removed, so the swept angle of a path round a node changes continuously -- a node that
+            // is pulled through an edge flips it by about 2*pi.
+            auto judge = [&]() {
+            ctx.count("states");
             for (size_t i = 0; i < N; i++) for (size_t j = i + 1; j < N; j++) {
                 double ox = min(nodes[i]->rect->getMaxX(), nodes[j]->rect->getMaxX()) - max(nodes[i]->rect->getMinX(), nodes[j]->rect->getMinX()), oy = min(nodes[i]->rect->getMaxY(), nodes[j]->rect->getMaxY()) - max(nodes[i]->rect->getMinY(), nodes[j]->rect->getMinY());
                 if (ox > 1e-6 && oy > 1e-6) ctx.violation("node_overlap", {}, desc, mcx::fmt("nodes %zu,%zu overlap %gx%g", i, j, ox, oy)); }
@@ -79,7 +77,11 @@ static void run_case(const Scene &sc, const vector<Op> &ops) {
                     if (!onCorner) ctx.violation("bend_not_on_corner", {}, desc, pstr);
                     double t = crs(path[s - 1]->posX(), path[s - 1]->posY(), px, py, path[s + 1]->posX(), path[s + 1]->posY());
                     double c1 = crs(path[s - 1]->posX(), path[s - 1]->posY(), px, py, r->getCentreX(), r->getCentreY()), c2 = crs(px, py, path[s + 1]->posX(), path[s + 1]->posY(), r->getCentreX(), r->getCentreY());
-                    if (fabs(t) > 1e-9) { if (!((t > 0 && c1 > -1e-9 && c2 > -1e-9) || (t < 0 && c1 < 1e-9 && c2 < 1e-9))) ctx.violation("bend_turns_away_from_node", {}, desc, pstr); }
+                    double la = hypot(px - path[s - 1]->posX(), py - path[s - 1]->posY()), lb2 = hypot(path[s + 1]->posX() - px, path[s + 1]->posY() - py), tol = 1e-7 * max(1.0, la * lb2);
+                    if (fabs(t) > tol) { if (!((t > 0 && c1 > -tol && c2 > -tol) || (t < 0 && c1 < tol && c2 < tol))) {
+                        // known-finding class: the corner the path bends at is aligned with a side of ANOTHER node (a tie between scan positions)
+                        vector<string> kc; for (size_t v = 0; v < N; v++) if (nodes[v] != path[s]->node) { const vpsc::Rectangle *o = nodes[v]->rect; if (fabs(px - o->getMinX()) < 1e-9 || fabs(px - o->getMaxX()) < 1e-9 || fabs(py - o->getMinY()) < 1e-9 || fabs(py - o->getMaxY()) < 1e-9) { kc.push_back("bend_corner_aligned_with_side_of_another_node"); break; } }
+                        ctx.violation("bend_turns_away_from_node", kc, desc, pstr + mcx::fmt(" turn=%g side=%g/%g", t, c1, c2)); } }
                     else ctx.count("straight_bends");
                     // the segment into / out of the bend must not cut the bend's own node either
                     if (segHitsRect(path[s - 1]->posX(), path[s - 1]->posY(), px, py, r->getCentreX(), r->getCentreY(), HW, 1e-6) || segHitsRect(px, py, path[s + 1]->posX(), path[s + 1]->posY(), r->getCentreX(), r->getCentreY(), HW, 1e-6)) ctx.violation("segment_through_node", {}, desc, "through the node it bends round:" + pstr);
@@ -90,6 +92,15 @@ static void run_case(const Scene &sc, const vector<Op> &ops) {
             for (size_t ei = 0; ei < es.size(); ei++) for (size_t v = 0; v < N; v++) { if ((int)v == sc.edges[ei].a || (int)v == sc.edges[ei].b) continue;
                 double s0 = swept(before[ei], cb[v][0], cb[v][1]), s1 = swept(after[ei], nodes[v]->rect->getCentreX(), nodes[v]->rect->getCentreY());
                 if (fabs(s1 - s0) > 1.5 * M_PI) ctx.violation("node_jumped_across_edge", {}, desc, mcx::fmt("edge %zu node %zu swept angle %g -> %g", ei, v, s0, s1)); }
+            before = after; for (size_t v = 0; v < N; v++) cb[v] = {nodes[v]->rect->getCentreX(), nodes[v]->rect->getCentreY()};
+            };
+            // an internal assertion (several of them ARE the property) must not hide the state it left behind:
+            // catch it, judge the state with the harness's own oracle, then stop this history
+            try { TopologyConstraints t(dim, nodes, es, nullptr, vs, cs); int lb = 100; bool in; do { in = t.solve(); lb--; judge(); } while (in && lb > 0); if (lb == 0) loop = true; }
+            catch (vpsc::CriticalFailure &f) { asserted = true; ctx.library_abort(f.what(), desc); judge(); }
+            for (auto c : cs) delete c;
+            ctx.count("transitions");
+            if (loop) ctx.count("loop_breaker_hit");
             if (asserted) break;
         }
     } catch (vpsc::CriticalFailure &f) { ctx.library_abort(f.what(), base + ops_str(ops, ops.size())); }
